@@ -33,7 +33,7 @@ SRC_KINDS = ['gen', 'agen', 'rx3', 'rx4', 'rx3bp', 'rx4bp']
 def any_src(frag):
     lib = st.fixed_dictionaries({'kind': st.sampled_from(SRC_KINDS), 'els': st.lists(gen.nonempty_lens(frag, 2), max_size=8),
                                  'end': st.sampled_from(['flag', 'sep']), 'awaits': st.integers(0, 2),
-                                 'pace': st.sampled_from([0, 0, 0, 3, 11, 40])})
+                                 'pace': st.sampled_from([0, 0, 3, 11, 40])})
     # (a manual publisher may also fail: an ERROR that reaches a subscriber which has already cancelled must not be delivered)
     return st.one_of(gen.manual_src(frag, ends=('flag', 'sep', 'error'), max_frags=3), lib, lib)
 
@@ -56,6 +56,9 @@ def programs(draw):
         else:
             spec['src'] = draw(any_src(fr_resp))
             spec['sub'] = draw(gen.sub_spec(full_credit=False))
+            if spec['src'].get('pace') and draw(st.booleans()):
+                # enough credit for a paced source to pull everything at once: what it then holds is a backlog
+                spec['sub'] = dict(spec['sub'], n0=gen.MAXN)
         if k == 'ch':
             spec['rsrc'] = draw(st.one_of(st.none(), any_src(fr_req)))
             spec['rsub'] = draw(st.one_of(st.none(), gen.sub_spec(False), gen.sub_spec(False)))
@@ -80,6 +83,8 @@ def programs(draw):
                                                    ('deliver', 'c', None), ('deliver', 's', None), ('tick', 2)]),
         # cancel right after the request, pumped
         st.just([('start',), ('cancel', -1, 'resp')]),
+        # cancel some (virtual) milliseconds into the stream: a paced publisher has pulled ahead of what it has handed over
+        st.integers(1, 90).map(lambda t: [('regime', 'pumped'), ('start',), ('adv', t), ('cancel', -1, 'resp'), ('adv', 120), ('tick', 3)]),
         # cancel while elements are in flight
         st.integers(0, 3).map(lambda i: [('regime', 'manual'), ('emit', i, 'resp', 2), ('tick', 2), ('cancel', i, 'resp'),
                                          ('deliver', 'c', None), ('deliver', 's', None), ('tick', 2)]),
